@@ -59,6 +59,8 @@ type env struct {
 	proxyLis  *bufconn.Listener
 	proxyCC   *grpc.ClientConn
 	httpc     *http.Client
+	flightc   *http.Client // no timeout: for calls that are meant to stay in flight
+	hook      *hookState
 
 	mu      sync.Mutex
 	targets map[string]*target // tid -> instance (never removed: a removed target keeps answering whoever still reaches it)
@@ -67,8 +69,9 @@ type env struct {
 }
 
 func newEnv(poll, opt bool) (*env, error) {
-	e := &env{poll: poll, opt: opt, targets: map[string]*target{}, live: map[string]*target{}}
+	e := &env{poll: poll, opt: opt, targets: map[string]*target{}, live: map[string]*target{}, hook: &hookState{}}
 	ropts := []grpcbridge.RouterOption{
+		grpcbridge.WithLogger(hookLogger{st: e.hook}),
 		grpcbridge.WithConnFunc(e.connFunc),
 		grpcbridge.WithDialOpts(grpc.WithUserAgent(userAgent)),
 	}
@@ -94,6 +97,7 @@ func newEnv(poll, opt bool) (*env, error) {
 	}
 	e.web = httptest.NewServer(grpcbridge.NewWebBridge(e.router, bopts...))
 	e.httpc = &http.Client{Timeout: probeTimeout, Transport: &http.Transport{MaxIdleConnsPerHost: probeParallel}}
+	e.flightc = &http.Client{Transport: &http.Transport{DisableKeepAlives: true}}
 
 	proxy := grpcbridge.NewGRPCProxy(e.router, popts...)
 	e.proxyLis = bufconn.Listen(1 << 18)
@@ -125,6 +129,7 @@ func (e *env) close() {
 	e.proxySrv.Stop()
 	_ = e.proxyLis.Close()
 	e.httpc.CloseIdleConnections()
+	e.flightc.CloseIdleConnections()
 	e.web.CloseClientConnections()
 	e.web.Close()
 	for _, t := range e.order {
@@ -153,15 +158,16 @@ func (fakeSTS) SetHeader(metadata.MD) error  { return nil }
 func (fakeSTS) SendHeader(metadata.MD) error { return nil }
 func (fakeSTS) SetTrailer(metadata.MD) error { return nil }
 
-// settled reports whether both routers of the ReflectionRouter route the sentinel service to `name`.
-func (e *env) settled(name string, sent service) bool {
+// settled reports whether BOTH routers of the ReflectionRouter route the sentinel service to `name` with a description
+// that reads back as the contract c (so a change that keeps every name and template is waited for as well).
+func (e *env) settled(name string, sent service, want string) bool {
 	path := "/" + sent.name + "/" + sent.methods[0].name
 	_, gr, err := e.router.RouteGRPC(grpc.NewContextWithServerTransportStream(context.Background(), fakeSTS{path}))
-	if err != nil || gr.Target == nil || gr.Target.Name != name {
+	if err != nil || gr.Target == nil || gr.Target.Name != name || contractOfDesc(gr.Target).canon() != want {
 		return false
 	}
 	_, hr, err := e.router.RouteHTTP(httptest.NewRequest("POST", path, nil))
-	return err == nil && hr.Target != nil && hr.Target.Name == name
+	return err == nil && hr.Target != nil && hr.Target.Name == name && contractOfDesc(hr.Target).canon() == want
 }
 
 // exhausted counts settle waits that ran into their bound: on a broken tree every Add would wait in full,
@@ -175,16 +181,23 @@ func (e *env) waitSettled(name string, c contract, bound time.Duration) bool {
 		return true
 	}
 	if exhausted.Load() >= 4 {
-		bound /= 8
+		// the cut bound is still far above what correct code needs (a first resolution takes milliseconds, a polled
+		// change one poll interval of 1 s ± 10 %), so it never turns correct behaviour into a difference
+		if bound > settleBound {
+			bound = 1600 * time.Millisecond
+		} else {
+			bound /= 8
+		}
 	}
 	defer func(t0 time.Time) {
 		if time.Since(t0) >= bound {
 			exhausted.Add(1)
 		}
 	}(time.Now())
+	want := c.canon()
 	deadline := time.Now().Add(bound)
 	for {
-		if e.settled(name, sent) {
+		if e.settled(name, sent, want) {
 			return true
 		}
 		if time.Now().After(deadline) {
@@ -286,7 +299,7 @@ func (e *env) update(name string, c contract, gen int) string {
 // ---------- probes ----------
 
 type probe struct {
-	ep         string // px | gw | gs | ht | ws
+	ep         string // px | gw | gs | dg (direct RouteGRPC) | ht | dh (direct RouteHTTP) | ws
 	hm, path   string
 	body       string // ht/ws: * | - | sub
 	id, sub, n string // what is sent (id / nested only on the gRPC-style entries; the transcoded ones carry them in the path)
@@ -337,6 +350,10 @@ func (e *env) run(p probe) (out string) {
 		return e.probeHTTP(p)
 	case "ws":
 		return e.probeWS(p)
+	case "dg":
+		return e.lookupGRPC(p.path)
+	case "dh":
+		return e.lookupHTTP(p.hm, p.path)
 	}
 	return "!ep"
 }
